@@ -12,7 +12,8 @@ static CORPUS: OnceLock<Vec<CorpusFont>> = OnceLock::new();
 pub fn corpus() -> &'static [CorpusFont] {
     CORPUS.get_or_init(|| {
         let mut v = Vec::new();
-        for dir in ["/repo/font-test-data/test_data/ttf", "/repo/font-test-data/test_data/ttc"] {
+        let root = crate::core::repo_root();
+        for dir in [format!("{root}/font-test-data/test_data/ttf"), format!("{root}/font-test-data/test_data/ttc")] {
             let mut names: Vec<_> = std::fs::read_dir(dir)
                 .map(|rd| rd.filter_map(|e| e.ok()).map(|e| e.path()).collect())
                 .unwrap_or_default();
